@@ -50,27 +50,33 @@ def save_replay(pid, history, step=None, tag=""):
 def conclude(pid, tier, level, histories, failures, rerun, coverage, t0, assumptions, max_report=6):
     """failures: list of vtrace.Failure.  rerun(history) -> list of Failure for that single history."""
     known = vc.load_known()
-    # per history: every failure of this property at its first failing step (later steps may be consequences)
-    first_step = {}
+    # per history: the failures of this property at its first failing step whose failures are not ALL listed as known
+    # findings (later steps may be consequences of an unlisted failure - but a listed finding must not hide what follows it)
+    by_hist = {}
     for f in failures:
-        if f.prop in (pid, "CRASH") and (f.history not in first_step or f.step < first_step[f.history]):
-            first_step[f.history] = f.step
+        if f.prop in (pid, "CRASH"):
+            by_hist.setdefault(f.history, {}).setdefault(f.step, []).append(f)
     known_hits = {}
     # every single failure is matched against the known findings on its own (what + detail + command): a listed finding
     # never hides a different failure that merely shares its label; representatives are chosen among the unlisted ones
     reps = {}
-    for f in failures:
-        if f.prop not in (pid, "CRASH") or f.step != first_step.get(f.history):
-            continue
-        hist = histories[f.history]
-        cmd = hist[f.step] if 0 <= f.step < len(hist) else None
-        kf = match_known(pid, f, cmd, known)
-        if kf:
-            known_hits[kf["id"]] = kf
-            continue
-        k = f.key()
-        if k not in reps or f.step < reps[k].step:
-            reps[k] = f
+    for hi, steps in by_hist.items():
+        hist = histories[hi]
+        for st in sorted(steps):
+            unknown = []
+            for f in steps[st]:
+                cmd = hist[f.step] if 0 <= f.step < len(hist) else None
+                kf = match_known(pid, f, cmd, known)
+                if kf:
+                    known_hits[kf["id"]] = kf
+                else:
+                    unknown.append(f)
+            if unknown:
+                for f in unknown:
+                    k = f.key()
+                    if k not in reps or f.step < reps[k].step:
+                        reps[k] = f
+                break
     violations = []
     flaky = 0
     unconfirmed_budget = max_report * 3
